@@ -8,7 +8,21 @@ class Boom(Exception):
     pass
 
 
-def make_endpoint(rid, beh, bindings=()):
+def make_factory(label):
+    """a render factory: render_arg -> render(context) stamping which factory produced the response"""
+    from clastic import Response
+
+    def factory(render_arg):
+        def render(context):
+            rid = context.get('rid') if isinstance(context, dict) else None
+            return Response('rendered-by:%s:%s:%s' % (label, render_arg, rid), mimetype='text/plain',
+                            headers={'X-Route': rid or '?', 'X-Rendered-By': label})
+        return render
+    factory.label = label
+    return factory
+
+
+def make_endpoint(rid, beh, bindings=(), returns_context=False):
     """endpoint that logs ['ep', rid, params] to the current trace and behaves as scripted"""
     from clastic import Response
     from clastic import errors
@@ -21,6 +35,8 @@ def make_endpoint(rid, beh, bindings=()):
         if tr is not None:
             tr['events'].append(['ep', rid, params])
         if kind == 'response':
+            if returns_context:
+                return {'rid': rid}
             return Response('route:%s:%s' % (rid, probe.current_token()), mimetype='text/plain',
                             headers={'X-Route': rid})
         if kind == 'uncaught':
@@ -44,8 +60,10 @@ def bindings_of(pattern):
 
 def make_route(spec, **kw):
     from clastic import Route
-    ep = make_endpoint(spec['rid'], spec['beh'], bindings_of(spec['pattern']))
+    ep = make_endpoint(spec['rid'], spec['beh'], bindings_of(spec['pattern']), returns_context=bool(spec.get('render_arg')))
     rkw = dict(kw)
+    if spec.get('render_arg'):
+        rkw['render'] = 'tmpl-' + spec['rid']
     if spec.get('methods'):
         rkw['methods'] = list(spec['methods'])
     if spec.get('mode'):
